@@ -69,6 +69,21 @@ func pageQueries(c *gen.Ctx, features map[string]string, done []Step, last bool)
 			}
 			add(q)
 		}
+		// grouped volumes (account prefix / asset is the unique key), every level, with PIT / window
+		for lvl := 1; lvl <= 3; lvl++ {
+			q := Query{K: "walk", Res: "volumes", GroupLvl: lvl, PageSize: gen.Pick(r, []uint64{1, 2, 3}), Order: order, InsertionDate: r.Intn(2) == 0}
+			switch r.Intn(3) {
+			case 0:
+				q.PIT = ptr(gen.Pick(r, instants(c, done, 3)))
+			case 1:
+				q.PIT = ptr(gen.Pick(r, instants(c, done, 3)))
+				q.OOT = ptr(gen.Pick(r, instants(c, done, 2)))
+			}
+			if r.Intn(3) == 0 {
+				q.Filter = genFilter(c, "volumes", done)
+			}
+			add(q)
+		}
 		for _, ps := range sizes(nlogs)[:1] {
 			add(Query{K: "walk", Res: "logs", Filter: pickFilter("logs"), PageSize: ps, Order: order})
 		}
